@@ -1031,6 +1031,13 @@ func (env *SpecEnv) call(x *SExpr) (*Term, types.Type) {
 				n.cur = env.outer
 				n.outer = nil
 				return n.tr(args[0])
+			case "atlock":
+				// the value of e right after the most recent lock acquisition on this path (entry state if none)
+				snap := env.cur.lockSnap
+				if snap == nil {
+					snap = env.e.entry
+				}
+				return env.inState(snap).tr(args[0])
 			case "before":
 				if env.before == nil {
 					env.fail("before() is only available in loop invariants")
@@ -1114,6 +1121,15 @@ func (env *SpecEnv) call(x *SExpr) (*Term, types.Type) {
 					return Fresh("calledwith_"+args[0].Name, "Bool"), types.Typ[types.Bool]
 				}
 				env.fail("calledwith(%s, ...): no ghost was set up for this clause", args[0].Name)
+			case "callrecv":
+				as, ok := env.e.callArgs[args[0].Name+"@recv"]
+				if !ok && env.atCallSite {
+					env.fail("@skip: callrecv() of a callee is not observable at its call sites")
+				}
+				if !ok || len(as) != 1 {
+					env.fail("callrecv(%s): no such method call before this point", args[0].Name)
+				}
+				return as[0].v, as[0].t
 			case "callarg":
 				as, ok := env.e.callArgs[args[0].Name]
 				var k int
@@ -1176,6 +1192,9 @@ func (env *SpecEnv) call(x *SExpr) (*Term, types.Type) {
 				v, _ := env.tr(args[0])
 				if env.old == nil {
 					env.fail("fresh() needs a pre-state")
+				}
+				if v.Sort == "Slice" {
+					v = SArr(v) // a slice is fresh when its backing array is
 				}
 				return And(Le(env.old.ctr, Root(v)), Lt(Root(v), env.cur.ctr)), types.Typ[types.Bool]
 			case "newinloop":
